@@ -222,12 +222,12 @@ var c11RootRe = regexp.MustCompile(`(?m)^&ast\.Root\{`)
 
 // c11CLI runs the real command-line tool (race build) over a generated directory.
 func c11CLI(c *core.Ctx, idx int) {
-	bin := filepath.Join(core.VerifDir, ".bin", "php-parser-race")
+	bin := filepath.Join(core.BinDir(), "php-parser-race")
 	if _, err := os.Stat(bin); err != nil {
 		c.Inconclusive("CLI race build missing")
 		return
 	}
-	dir := filepath.Join(core.VerifDir, ".work", "C11-cli", fmt.Sprintf("run%d-%d", idx, os.Getpid()))
+	dir := filepath.Join(core.WorkDir(), "C11-cli", fmt.Sprintf("run%d-%d", idx, os.Getpid()))
 	os.RemoveAll(dir)
 	defer os.RemoveAll(dir)
 	r := core.NewRand(c.P.Seed, "C11cli", idx)
